@@ -230,6 +230,8 @@ def check(prog: Program, res: Result) -> None:
     c17.check_use(prog, res, rule="C08-order")
     check_minpeaks(prog, res)
     check_partition(prog, res)
+    from . import c03
+    res.borrow(c03.check_lines_premises, "C08-lines", prog)
     res.assumptions.append("optimality of the per-edge assignment is scipy's; partition/score-sum invariants over arbitrary inputs are not decided")
 
 
